@@ -13,6 +13,15 @@ SRC_TEXT = {
     "src/emoji_u1f600.svg": cli.SVG_A,
     "src/emoji_u1f601.svg": cli.SVG_B,
     "src/emoji_u1f601_200d_1f600.svg": cli.SVG_C,
+    # smooth multi-stop gradients with translucency: more colours than a 256-entry palette can hold at full quality
+    "src/emoji_u1f9e0.svg": ('<svg xmlns="http://www.w3.org/2000/svg" viewBox="0 0 100 100"><defs><radialGradient id="a" cx="0.4" cy="0.4" r="0.7">'
+                             '<stop offset="0" stop-color="#FFEB3B"/><stop offset="0.4" stop-color="#E53935"/><stop offset="0.7" stop-color="#3949AB" stop-opacity="0.6"/>'
+                             '<stop offset="1" stop-color="#00897B"/></radialGradient><linearGradient id="b" x1="0" y1="0" x2="1" y2="1"><stop offset="0" stop-color="#8E24AA"/>'
+                             '<stop offset="0.5" stop-color="#7CB342" stop-opacity="0.5"/><stop offset="1" stop-color="#FB8C00"/></linearGradient></defs>'
+                             '<path d="M5,5 L95,5 L95,95 L5,95 Z" fill="url(#a)"/><path d="M20,30 L80,20 L70,85 L30,70 Z" fill="url(#b)" opacity="0.8"/></svg>\n'),
+    "src/emoji_u1f9e1.svg": ('<svg xmlns="http://www.w3.org/2000/svg" viewBox="0 0 100 100"><defs><linearGradient id="a" x1="0" y1="1" x2="1" y2="0">'
+                             '<stop offset="0" stop-color="#039BE5"/><stop offset="0.3" stop-color="#FDD835"/><stop offset="0.6" stop-color="#E53935" stop-opacity="0.7"/>'
+                             '<stop offset="1" stop-color="#6D4C41"/></linearGradient></defs><path d="M50,4 L96,50 L50,96 L4,50 Z" fill="url(#a)"/></svg>\n'),
 }
 
 
